@@ -33,7 +33,7 @@ From Soy Require Import Model.Bytes Model.Num Model.Values Model.Outcome Model.A
   Model.Escape Model.Directives Model.Print Generated.Tables Model.Interp Model.InterpSafety Model.Globals
   Model.Compile Model.ExprPipeline Model.InterpJson Spec.Safety
   Proofs.SafetyPure Proofs.SafetyProofs Proofs.SafetyEntry Proofs.SafetyFuel Proofs.SafetyCompile Proofs.SafetyMono
-  Proofs.SafetyDepth Proofs.SafetyBytes Proofs.SafetyUser Proofs.SafetyExt Proofs.SafetyRefine.
+  Proofs.SafetyDepth Proofs.SafetyBytes Proofs.SafetyUser Proofs.SafetyExt Proofs.SafetyRefine Proofs.SafetyMarker.
 Open Scope N_scope.
 
 (* ================================================================== *)
@@ -140,13 +140,26 @@ Theorem C06_walk_fuel_depth :
 Proof. exact walk_fuel_depth. Qed.
 Print Assumptions C06_walk_fuel_depth.
 
-(* every run that answers has such a d: a run with fuel f cannot nest more than f calls, so started at call
-   depth 0 the walker capped at f is the walker.  ([e_capped] is the instrument's own marker: the hypothesis
-   excludes a run of the plain walker that ends in an error with exactly that text.) *)
+(* every run that does not run out of fuel has such a d: a run with fuel f cannot nest more than f calls, so
+   started at call depth 0 the walker capped at f is the walker.  ([e_capped] is the instrument's own marker;
+   that the plain walker never ends with it is C06_walk_never_capped below, so "the fuel sufficed" is the only
+   hypothesis.) *)
 Theorem C06_answer_has_depth :
-  forall cf f n st, depth_ st = 0%nat -> is_answer (fst (walk cf f n st)) -> run_depth_le cf f n st.
-Proof. exact walk_answer_has_depth. Qed.
+  forall cf f n st, depth_ st = 0%nat -> fst (walk cf f n st) <> OutOfFuel -> run_depth_le cf f n st.
+Proof. exact walk_answer_has_depth_nofuel. Qed.
 Print Assumptions C06_answer_has_depth.
+
+(* the error texts of the plain walker: an [Err e] of [Interp.walk] carries one of the finitely many texts of
+   [walker_texts] (the constants Model/Interp.v fails with and those of the pure helpers it lifts), whatever
+   the configuration, node, state and fuel; the marker of the depth instrument is not one of them *)
+Theorem C06_walk_err_text :
+  forall cf f n st e, fst (walk cf f n st) = Err e -> walker_text e = true.
+Proof. exact walk_err_text. Qed.
+Print Assumptions C06_walk_err_text.
+Theorem C06_walk_never_capped :
+  forall cf f n st, fst (walk cf f n st) <> Err e_capped.
+Proof. exact walk_never_capped. Qed.
+Print Assumptions C06_walk_never_capped.
 
 (* the three facts behind it.  (a) the budget pays for every run that stays within d nested calls:
    started at call depth k <= d with tree_height n + reg_height * (d - k) fuel, the capped walker ends at
